@@ -20,6 +20,7 @@ import (
 func init() {
 	register(&Family{Name: "c09", Gen: func(seed uint64, tier string) *world.Scenario { return genC09(seed, false) }, Run: runC09})
 	register(&Family{Name: "c09pairs", Gen: func(seed uint64, tier string) *world.Scenario { return genC09(seed, true) }, Run: runC09})
+	register(&Family{Name: "c09init", Gen: genC09Init, Run: runC09})
 }
 
 type c09Combo struct{ fan, sensor, curve string }
@@ -395,4 +396,46 @@ func targetClass(sc *world.Scenario, target string) string {
 		return kind + "-sensor"
 	}
 	return target
+}
+
+// genC09Init: faults during the initial analysis (PWM sweep, RPM-curve
+// measurement) of a hwmon fan that has no stored data, while a bystander fan
+// is already being regulated.
+func genC09Init(seed uint64, tier string) *world.Scenario {
+	sc := genC09(0, false) // combo hwmon/hwmon/linear as the frame
+	r := kernel.NewRand(seed, "c09init")
+	sc.Family, sc.Seed = "c09init", seed
+	sc.Faults = nil
+	sc.FanResponseDelay = 1
+	fa := &sc.Fans[0]
+	fa.PwmMap = nil
+	fa.Driver.Quant, fa.Driver.K = "mult", 32
+	fa.Driver.InitPwm = 96
+	var db []world.DBEntry
+	for _, e := range sc.DB {
+		if e.Key != "fa" {
+			db = append(db, e)
+		}
+	}
+	sc.DB = db
+	sc.Horizon = sec(45)
+	type site struct {
+		op, target, flags string
+		kinds             []string
+		maxNth            int
+	}
+	sites := []site{
+		{"write", "fan:fa:pwm", "sweep", []string{"error", "ignored"}, 200},
+		{"read", "fan:fa:pwm", "sweep", readKinds, 200},
+		{"write", "fan:fa:pwm", "initseq,!sweep", []string{"error", "ignored"}, 8},
+		{"read", "fan:fa:pwm", "initseq,!sweep", readKinds, 8},
+		{"read", "fan:fa:rpm", "initseq,!settle", readKinds, 8},
+		{"read", "fan:fa:rpm", "settle", readKinds, 8},
+		{"write", "fan:fa:enable", "manual", []string{"error", "einval", "ignored"}, 2},
+	}
+	s := sites[r.Intn(len(sites))]
+	sc.Faults = append(sc.Faults, world.FaultSpec{Op: s.op, Target: s.target, Nth: r.Range(0, s.maxNth), Count: kernel.Pick(r, 1, 1, 3), Kind: s.kinds[r.Intn(len(s.kinds))], OnlyFlags: s.flags})
+	sc.Variant = "hwmon/hwmon/linear/analysis"
+	sc.Params["index"], sc.Params["total"] = float64(seed%1000), 1000
+	return sc
 }
